@@ -70,6 +70,8 @@ func vpErrIsLast() bool { return false }
 
 func vpSampleRecs(tag string, shape int) (hdr []string, recs []*SAM) {
 	switch shape {
+	case 4:
+		return []string{"@HD\tVN:1"}, []*SAM{vpRecord(tag+"a.", 4200, 0, 0, 0), vpRecord(tag+"b.", 1, 0, 0, 0)}
 	case 0:
 		return nil, []*SAM{vpRecord(tag+"a.", 1, 0, 0, 0)}
 	case 1:
@@ -124,6 +126,7 @@ func vpParseFloatStub(s string, bits int) (float64, error) {
 //   k=2: 10 fields only (too few)               k=3: one tag of 4 symbolic bytes
 //   k=4: one tag of 5 symbolic bytes            k=5: a valid tag followed by a 4-byte symbolic tag
 //   k=6: integer fields 3, 4 and 8 (1..2 bytes) k=7: one tag "X?:?:??" with 4 symbolic bytes
+//   k=8: a symbolic text field and four concrete float tags outside float32
 func vpTemplate(k int) []byte {
 	tok := func(name string, n int) string {
 		b := vpBytes(name, n)
@@ -155,6 +158,10 @@ func vpTemplate(k int) []byte {
 		f[3], f[4], f[8] = tok("f3", 2), tok("f4", 1), tok("f8", 1)
 	case 7:
 		f = append(f, "X"+tok("ta", 1)+":"+tok("tb", 1)+":"+tok("tc", 2))
+	case 8:
+		// concrete float tags that are not representable in float32
+		f[0] = tok("f0", 1)
+		f = append(f, "XF:f:0.1", "XG:f:16777217", "XH:f:-1e300", "XI:f:3.14159265358979")
 	}
 	var out []byte
 	for i, x := range f {
@@ -168,11 +175,8 @@ func vpTemplate(k int) []byte {
 
 func vpFixedPoint(rec any) (bool, bool) {
 	s := rec.(*SAM)
-	for _, v := range s.Tags {
-		if _, isF := v.(float64); isF {
-			return false, false
-		}
-	}
+	// (float tags take part: a float parsed from concrete text is exact, and
+	// the arbitrary-result stub used on symbolic text returns concrete values)
 	for _, f := range []string{s.Qname, s.Rname, s.Cigar, s.Rnext, s.Seq, s.Qual} {
 		for i := 0; i < len(f); i++ {
 			if f[i] == '\t' || f[i] == '\n' || f[i] == '\r' {
@@ -203,4 +207,20 @@ func vpFixedPoint(rec any) (bool, bool) {
 	}
 	got := vpCollect(vpOneShot(w.b), 3)
 	return true, len(got) == 1 && !got[0].err && vpSameSAM(got[0].s, s)
+}
+
+func vpOneRecord(i, extra int) []byte {
+	var out []byte
+	for k := 0; k <= extra; k++ {
+		out = append(out, 'q')
+	}
+	out = append(out, "\t0\tr\t1\t2\t*\t=\t3\t4\t"...)
+	for j := 0; j < 8; j++ {
+		out = append(out, "ACGT"[(i+j*j)%4])
+	}
+	out = append(out, '\t')
+	for j := 0; j < 8; j++ {
+		out = append(out, byte('!'+(i*3+j)%40))
+	}
+	return append(out, '\n')
 }
